@@ -261,6 +261,7 @@ func runC13(c *Ctx) {
 	checkCreditRewriteFlags(c, "C13-R4")
 	checkExistsThenPut(c, "C13-R4")
 	checkConflictRemoval(c, "C13-R5")
+	checkTxRecordHashIsTxid(c, "C13-R5")
 	checkLoopCarriedStructs(c, "C13-R5", []string{"rollback", "updateMinedBalance"})
 }
 
